@@ -346,3 +346,162 @@ def write_evidence(prop, ev):
     os.makedirs(d, exist_ok=True)
     with open(os.path.join(d, prop + ".json"), "w") as f:
         json.dump(ev, f, indent=1)
+
+
+# ---------------------------------------------------------------------------------------------------------------
+# Shrinking of failing ops (delta debugging on the op line; candidates are evaluated in batches on both sides)
+
+def classify_line(im, model_line):
+    """'violation' | 'tie' | None for one (implementation outcome, driver line) pair — same rules as compare()."""
+    m = model_line.split("\t")
+    mo, sp = m[0], (m[1] if len(m) > 1 else None)
+    if mo.startswith("skip"):
+        if sp is not None and not sp.startswith("unspecified") and not sp.startswith("skip") and im != sp:
+            return "violation"
+        return None
+    if sp is not None and not sp.startswith("unspecified") and im != sp:
+        return "violation"
+    if im != mo:
+        return "violation" if im.startswith("panic:") else "tie"
+    return None
+
+
+def run_pair(exe, lines):
+    inp = "\n".join(lines) + "\n"
+    try:
+        _, impl = sh([exe, "exec"], input=inp, timeout=120, env=GOENV)
+        _, model = sh([driver_path()], input=inp, timeout=120)
+    except subprocess.TimeoutExpired:
+        return [], []
+    return impl.split("\n")[:-1], model.split("\n")[:-1]
+
+
+_HEX = re.compile(r"(?:[0-9a-f]{2})+")
+
+
+def _json_variants(v):
+    """Structurally smaller variants of a parsed JSON value (objects are lists of pairs, order kept)."""
+    out = []
+    if isinstance(v, _Obj):
+        for i in range(len(v.pairs)):
+            out.append(_Obj(v.pairs[:i] + v.pairs[i + 1:]))
+        for i, (k, x) in enumerate(v.pairs):
+            for y in _json_variants(x):
+                out.append(_Obj(v.pairs[:i] + [(k, y)] + v.pairs[i + 1:]))
+            if len(k) > 1:
+                out.append(_Obj(v.pairs[:i] + [(k[:len(k) // 2], x)] + v.pairs[i + 1:]))
+    elif isinstance(v, list):
+        for i in range(len(v)):
+            out.append(v[:i] + v[i + 1:])
+        for i, x in enumerate(v):
+            for y in _json_variants(x):
+                out.append(v[:i] + [y] + v[i + 1:])
+    elif isinstance(v, str):
+        if v:
+            out += ["", v[:len(v) // 2], v[len(v) // 2:]]
+    elif isinstance(v, bool) or v is None:
+        pass
+    elif isinstance(v, (int, float)):
+        if v != 0:
+            out += [0, 1]
+    if isinstance(v, (_Obj, list)) and (v.pairs if isinstance(v, _Obj) else v):
+        out.append(_Obj([]) if isinstance(v, _Obj) else [])
+    return out
+
+
+class _Obj:
+    def __init__(self, pairs):
+        self.pairs = list(pairs)
+
+
+def _dump(v):
+    if isinstance(v, _Obj):
+        return "{" + ",".join(json.dumps(k, ensure_ascii=False) + ":" + _dump(x) for k, x in v.pairs) + "}"
+    if isinstance(v, list):
+        return "[" + ",".join(_dump(x) for x in v) + "]"
+    return json.dumps(v, ensure_ascii=False)
+
+
+def _arg_candidates(raw):
+    """Smaller encodings of one op argument (kept in the argument's own encoding: hex stays hex)."""
+    if raw == "-" or raw == "":
+        return []
+    is_hex = len(raw) >= 2 and _HEX.fullmatch(raw) is not None
+    data = bytes.fromhex(raw) if is_hex else raw.encode("utf-8", "surrogateescape")
+    cands = []
+    # (a) chunk removal on the bytes
+    n = len(data)
+    size = n // 2
+    while size >= 1 and len(cands) < 400:
+        for i in range(0, n, size):
+            cands.append(data[:i] + data[i + size:])
+        size //= 2
+    # (b) token removal on common separators (sequences packed into one argument)
+    for sep in (b";", b",", b"|", b" ", b"\n", b"/"):
+        toks = data.split(sep)
+        if 2 <= len(toks) <= 200:
+            for i in range(len(toks)):
+                cands.append(sep.join(toks[:i] + toks[i + 1:]))
+    # (c) structural JSON shrinking
+    try:
+        txt = data.decode("utf-8")
+        if txt[:1] in "{[":
+            v = json.loads(txt, object_pairs_hook=_Obj)
+            for y in _json_variants(v)[:600]:
+                cands.append(_dump(y).encode("utf-8"))
+    except (ValueError, UnicodeDecodeError, RecursionError):
+        pass
+    res, seen = [], set()
+    for c in cands:
+        if len(c) >= n or c in seen:
+            continue
+        seen.add(c)
+        if is_hex:
+            res.append(c.hex() if c else "-")
+        else:
+            try:
+                s = c.decode("utf-8", "surrogateescape")
+            except UnicodeDecodeError:
+                continue
+            if "\t" in s or "\n" in s:
+                continue
+            res.append(s if s else "-")
+    return res
+
+
+def shrink(prop, exe, opline, kind, findings=(), budget_s=20.0):
+    """Greedy batched delta debugging: returns (smaller op line, impl, driver line) that still fails with the same
+    kind ('violation' / 'tie') and is not a known finding — or None when nothing smaller fails."""
+    t0 = time.time()
+    best, best_out = opline, None
+    improved = True
+    rounds = 0
+    while improved and time.time() - t0 < budget_s and rounds < 60:
+        improved = False
+        rounds += 1
+        parts = best.split("\t")
+        cands = []
+        for i in range(1, len(parts)):
+            for c in _arg_candidates(parts[i]):
+                cands.append("\t".join(parts[:i] + [c] + parts[i + 1:]))
+        cands.sort(key=len)
+        cands = cands[:1500]
+        if not cands:
+            break
+        impl, model = run_pair(exe, cands)
+        if len(impl) != len(cands) or len(model) != len(cands):
+            # a candidate killed the harness or the driver: evaluate one by one up to the first survivor
+            impl, model = [], []
+            for c in cands[:60]:
+                a, b = run_pair(exe, [c])
+                impl.append(a[0] if a else "crash")
+                model.append(b[0] if b else "crash")
+            cands = cands[:60]
+        for c, im, mo in zip(cands, impl, model):
+            if classify_line(im, mo) == kind and not any(f.matches(prop, c) for f in findings):
+                best, best_out = c, (im, mo)
+                improved = True
+                break
+    if best_out is None:
+        return None
+    return best, best_out[0], best_out[1]
